@@ -222,6 +222,45 @@ def _walk_apps(formulas: Sequence[Any], lib: SpecLib, seen_terms: set[int]):
             stack.extend(t.children())
 
 
+# ---- shared sub-term index for area instantiators (per VC: reset at the start of instantiate) --------------------------------------------
+_SUBTERMS: dict = {"top": set(), "seen": set(), "terms": [], "keep": []}
+
+
+def subterms(formulas: Sequence[Any]) -> list[Any]:
+    """Every application sub-term of the formulas handed to the instantiators of the current VC, each once (quantifier bodies excluded).
+    The list of formulas only grows during one VC, so the walk is incremental."""
+    st = _SUBTERMS
+    stack = []
+    for f in formulas:
+        if f.get_id() not in st["top"]:
+            st["top"].add(f.get_id())
+            st["keep"].append(f)
+            stack.append(f)
+    seen, terms = st["seen"], st["terms"]
+    while stack:
+        f = stack.pop()
+        if not z3.is_app(f) or f.get_id() in seen:
+            continue
+        seen.add(f.get_id())
+        terms.append(f)
+        stack.extend(f.children())
+    return terms
+
+
+def new_subterms(formulas: Sequence[Any], owner: str) -> tuple[list[Any], dict]:
+    """The sub-terms `owner` has not been handed yet in this VC, and a dictionary in which it may keep what it collected from the earlier ones."""
+    terms = subterms(formulas)
+    st = _SUBTERMS.setdefault("owners", {}).setdefault(owner, {"pos": 0, "state": {}})
+    fresh = terms[st["pos"]:]
+    st["pos"] = len(terms)
+    return fresh, st["state"]
+
+
+def _reset_subterms() -> None:
+    _SUBTERMS["top"], _SUBTERMS["seen"], _SUBTERMS["terms"], _SUBTERMS["keep"] = set(), set(), [], []
+    _SUBTERMS["owners"] = {}
+
+
 def _walk_contains(formulas: Sequence[Any], seen: set[int]):
     stack = list(formulas)
     while stack:
@@ -243,12 +282,14 @@ def instantiate(hyps: Sequence[Any], goal: Any, bank: TermBank, lib: SpecLib, ro
     """Generator-side E-matching: returns rule instances relevant to this VC."""
     m = _Matcher(bank, lib)
     m.learn_equalities(hyps)
+    _reset_subterms()
     for ex in lib.extra_instantiators:
         getattr(ex, "reset", lambda: None)()          # per-VC state of an instantiator (pyvc.qpred)
     instances: list[Any] = []
     inst_keys: set[tuple] = set()
     seen_terms: set[int] = set()
     seen_contains: set[int] = set()
+    ex_last: dict[int, int] = {}
     apps: list[tuple[SpecFn, Any]] = []
     frontier: list[Any] = list(hyps) + [goal]
     used: dict[str, int] = {}
@@ -331,7 +372,12 @@ def instantiate(hyps: Sequence[Any], goal: Any, bank: TermBank, lib: SpecLib, ro
                         continue
                 elif not getattr(ex, "definitional", False) and not hasattr(ex, "reset"):
                     continue          # neither a definition (QPred instantiators carry `reset`) nor declared: not available to lemma proofs
-            for inst in ex(list(hyps) + [goal] + instances):
+            allf = list(hyps) + [goal] + instances
+            n_terms = len(subterms(allf))
+            if ex_last.get(id(ex)) == n_terms:
+                continue              # no new sub-term since this instantiator last ran in this VC: it has nothing new to say
+            ex_last[id(ex)] = n_terms
+            for inst in ex(allf):
                 key = ("extra", inst.get_id())
                 if key not in inst_keys:
                     inst_keys.add(key)
